@@ -207,7 +207,8 @@ def check(run):
     for sc in scen:
         s = summ[sc["name"]]
         run.note_case(sc["name"], oc.nontrivial(s))
-        for k in ("deletes", "failed", "startFailed", "started", "succeeded", "restarts", "quiescent", "injected", "cuts", "panics", "skips"):
+        for k in ("deletes", "failed", "startFailed", "started", "succeeded", "restarts", "quiescent", "injected", "cuts", "panics", "skips",
+                  "latched_vanish_delete"):
             stats[k] += s[k]
     for b, sc in zip(sel, scen_model):
         d = oc.model_drift(b, summ[sc["name"]])
@@ -215,6 +216,10 @@ def check(run):
             drift.append((sc["name"], d))
     if stats["panics"]:
         run.notes.append("%d controller steps panicked (recovered like controller-runtime does; not judged by C08)" % stats["panics"])
+    if stats["latched_vanish_delete"]:
+        run.notes.append("OBSERVATION (not judged): in %d candidate deletes a replacement that had been seen Initialized (latched) had "
+                         "since disappeared; the statement's 'a replacement disappears' is read as 'before it reported Initialized'"
+                         % stats["latched_vanish_delete"])
     if drift:
         msg = "MODEL-DRIFT: %d of %d model behaviours ended differently on the real code (diagnostic, not a verdict): %s" % (
             len(drift), len(sel), drift[:4])
